@@ -519,13 +519,16 @@ def make_variant(m, rng, cut, perm=None, kind='', check=True):
         else:
             desc.setdefault(a, []).append(('$' + lab, o))
             desc.setdefault(b, []).append(('$' + lab, o))
-    texts, orders, toks = [], [], {}
+    texts, orders, toks, simtok = [], [], {}, []
     for i, p in enumerate(parts):
         t, ol, events = render_part(m, p, rng, desc, lead_cut=lead.get(i),
                                     trail_cut={x: v for x, v in trail.items() if x in p})
         texts.append(t)
         orders.append(ol)
-        toks.update(stored_tokens(ol, events))
+        st = stored_tokens(ol, events)
+        toks.update(st)
+        # the generator's simulation of the per-atom token store, by text position (checked against the strip model)
+        simtok.append(sorted([ol.index(a), tk] for a, tk in st.items()))
     pos = {a: (owner[a], orders[owner[a]].index(a)) for a in owner}
     for (l, an) in m.side:
         if (l, an) not in wb:
@@ -540,7 +543,7 @@ def make_variant(m, rng, cut, perm=None, kind='', check=True):
     defs = ['#%s=%s' % (names[i], texts[i]) for i in range(len(parts))]
     rng.shuffle(defs)
     return {'s': base + '.{' + ','.join(defs) + '}', 'mol': m.dump(), 'kind': kind, 'nparts': len(parts),
-            'texts': texts, 'perm': perm, 'ambiguous': amb,
+            'texts': texts, 'perm': perm, 'ambiguous': amb, 'simtok': {NAMES[i]: simtok[i] for i in range(len(parts))},
             'wb': sorted([[l, an, bool(v), (l, an) in cutoff] for (l, an), v in wb.items()])}
 
 
@@ -745,6 +748,7 @@ def damaged(v, rng):
     d = dict(v)
     d['s'] = base + '.{' + frs
     d['kind'] = 'unjudged:damaged-mark'
+    d.pop('simtok', None)
     d['judged'] = False
     return d
 
@@ -890,7 +894,7 @@ class C15(common.Prop):
 
     def describe(self, case):
         d = {'s': case['s'], 'mol': case['mol'], 'kind': case.get('kind', '')}
-        for k in ('raw', 'judged', 'wb', 'hfree'):
+        for k in ('raw', 'judged', 'wb', 'hfree', 'simtok'):
             if k in case:
                 d[k] = case[k]
         return d
@@ -996,7 +1000,8 @@ class C15(common.Prop):
         ident = impl.get('ident') or impl.get('ident_before')
         wbl = lit.lst(['(%s, %s, %s, %s)' % (lit.z(l), lit.z(an), lit.b(w), lit.b(c)) for l, an, w, c in case.get('wb', [])])
         return ('{| c_judged := %s; c_before := %s; c_after := %s; c_ret := %s; c_atoms := %s; c_bonds := %s; '
-                'c_ident := %s; c_chiral := %s; c_rel := %s; c_wb := %s; c_frags := %s; c_str := %s; c_side := %s |}'
+                'c_ident := %s; c_chiral := %s; c_rel := %s; c_wb := %s; c_frags := %s; c_str := %s; c_side := %s; '
+                'c_simtok := %s |}'
                 % (lit.b(case.get('judged', True)), '(Some %s)' % before if before else 'None',
                    '(Some %s)' % after if after else 'None',
                    '(Some %s)' % ret if ret else 'None',
@@ -1005,7 +1010,9 @@ class C15(common.Prop):
                    chir, rel, wbl,
                    lit.lst(['(%s, %s, %s)' % (lit.s(n), lit.s(t), o) for n, t, o in impl.get('frags', [])]),
                    '(Some %s)' % lit.s(case['s']) if case.get('hfree') else 'None',
-                   lit.lst(['(%s, %s, %s)' % (lit.z(l), lit.z(a), lit.b(sd == 'u')) for l, a, sd in mol['side']])))
+                   lit.lst(['(%s, %s, %s)' % (lit.z(l), lit.z(a), lit.b(sd == 'u')) for l, a, sd in mol['side']]),
+                   lit.lst(['(%s, %s)' % (lit.s(n), lit.lst(['(%s, %s)' % (lit.z(i), lit.s(tk)) for i, tk in tl]))
+                            for n, tl in sorted(case.get('simtok', {}).items())])))
 
     def python_oracle(self, case, impl):
         return py_oracle(case, impl)
